@@ -66,6 +66,12 @@ func runMember(c *core.Ctx, mb member, rules map[string]bool, budget int, check 
 }
 
 func runMemberOpt(c *core.Ctx, mb member, rules map[string]bool, budget int, sized bool, check func(w *fam.World, fm *fam.FileModel) []fam.Issue) {
+	if d := os.Getenv("VCHECK_DUMP"); d != "" && strings.Contains(mb.name, d) {
+		// developer aid: print the emitted text of the first world of the named member
+		if ws, _ := fam.Run(c.Prog, mb.cfg, mb.root, budget, nil); len(ws) > 0 && ws[0].Files["out.go"] != nil {
+			fmt.Fprintf(os.Stderr, "---- %s ----\n%s\n", mb.name, ws[0].Files["out.go"].R.Text)
+		}
+	}
 	t0 := time.Now()
 	worlds, complete := fam.Run(c.Prog, mb.cfg, mb.root, budget, nil)
 	for _, w := range worlds {
